@@ -11,7 +11,7 @@
   "meta_hist"           {init: <make step>, steps: [...]} -> {"init": res, "steps": [{"res", "reg", "last"}, ...]}
      every step carries the frame observed at that point ("frame") and a kind "k":
        units | get{name} | iter | header | json | add_column{name,unit?,dunit?,fmt?} | set_units{map}
-       | set_all_units{units} | set_col_unit{name,unit} | set_fmt{name,fmt?} | set_strict{b} | rewrap{units?,strict?} | finalize{srcs,strict}
+       | set_all_units{units} | set_col_unit{name,unit} | set_fmt{name,fmt?} | set_strict{b} | clone | rewrap{units?,strict?} | finalize{srcs,strict}
        | make{units?,unit_map?,strict} | peek
      every step may carry "t": the index of the table it addresses (default: the newest).  A successful
      rewrap / finalize / make appends a new table (a sibling with its own register); the old ones stay alive.
@@ -160,6 +160,7 @@ def metaStep (i : Info) (j : Json) : Except String (Info × Option Info × Json)
   | "set_fmt" =>
     let (i1, e) := setColFmt i f (← getStr j "name") (← getOptStr j "fmt")
     pure (i1, none, optErrToJson e)
+  | "clone" => pure (i, some i, Json.null)
   | "set_strict" =>
     let b ← getBool j "b"
     pure ({ i with strict := b }, none, Json.null)
